@@ -456,3 +456,36 @@ func C04CallerLeaves() {
 	v.probe("after-the-caller-left-again")
 	sym.Reach("caller-leaves-done")
 }
+
+// C04TracedObject: with the object's tracing switched on (every call goes through the tracing
+// wrapper of the connection), calls of any id that succeed or fail — a user method, a generic
+// action without its arguments, an unknown property — are still answered exactly once, with a frame of the right type
+// carrying the call's own id.
+func C04TracedObject() {
+	v := newZZVictim(0)
+	if sym.Bool("traces-enabled") {
+		out := zzRoundTrip(v.hostile, zzFrame(net.Call, v.sid, 1, 85, 60, []byte{1}))
+		sym.Assert(len(out) == 1 && out[0].Header.Type == net.Reply, "traced/enable-trace")
+	}
+	for i := 0; i < 2; i++ {
+		id := sym.U32("call-id")
+		action := uint32(1000)
+		wantType := uint8(net.Reply)
+		var payload []byte
+		switch sym.Choose("call-kind", 3) {
+		case 1:
+			action, wantType = 0, net.Error // registerEvent without its arguments
+		case 2:
+			action, wantType = 5, net.Error // property(name) of a property that does not exist
+			payload = zzValueBytes(value.String("nope"))
+		}
+		out := zzRoundTrip(v.hostile, zzFrame(net.Call, v.sid, 1, action, id, payload))
+		sym.Assert(len(out) == 1, "traced/answer-count")
+		if len(out) == 1 {
+			sym.Assert(out[0].Header.Type == wantType, "traced/answer-type")
+			sym.Assert(sym.And(out[0].Header.ID == id, sym.And(out[0].Header.Action == action, out[0].Header.Object == 1)), "traced/answer-carries-another-id")
+		}
+	}
+	v.probe("after-traced-calls")
+	sym.Reach("traced-done")
+}
